@@ -8,7 +8,7 @@ use pallas_validate::utils::{
 use pvkit::cborx as cx;
 use std::collections::BTreeMap;
 
-use crate::forge::{EraK, BLOCK_SLOT, NETWORK_ID};
+use crate::forge::{block_slot, EraK, NETWORK_ID};
 
 fn r(n: u64, d: u64) -> RationalNumber {
     RationalNumber { numerator: n, denominator: d }
@@ -222,7 +222,7 @@ pub fn env(era: EraK, t: &PpTweak) -> Environment {
     Environment {
         prot_params: pp,
         prot_magic: 764824073,
-        block_slot: t.block_slot.unwrap_or(BLOCK_SLOT),
+        block_slot: t.block_slot.unwrap_or(block_slot(era)),
         network_id: t.network_id.unwrap_or(NETWORK_ID),
         acnt: Some(AccountState { treasury: 261_254_564_000_000, reserves: 0 }),
     }
